@@ -1,2 +1,107 @@
-import Crem.Model.CatchmentSpec
-/-! # C02 — theorems under construction (see DESIGN.md section 5) -/
+import Crem.Properties.C01
+/-!
+# C02 — proposals are transactional: exact revert, accept = reported change
+
+Theorems about the executable catchment model, exact in ℚ, for every dataset satisfying
+`InitConsistent` / `KeysDistinct`, every canonical state `s` (`Canon D s`; by C01 every state
+reachable by a conformant history is canonical — the `…_reachable` corollary spells that out) and
+every action index `i`.
+
+* `propose D s i`            = `TryRandomChange` with index `i` drawn / `ToggleAction`
+* `accept`, `revert`         = `AcceptChange`, `RevertChange`
+* `change s v`               = `DecisionVariableChange(v)` (done − undone value of the pending command)
+* `total`, `unitVal`, `flags` = the observables (the solution encoding is a function of `flags`)
+
+Every `theorem` in this file is audited by `./check C02` (`#print axioms`).
+-/
+namespace Crem.Catchment
+
+/-- while a change is only proposed every total and every per-unit value stays put
+(any state, any index — no hypothesis needed) -/
+theorem propose_keeps_values (D : Data) (s : State) (i : Nat) :
+    ∀ v, total (propose D s i) v = total s v ∧ ∀ p, unitVal (propose D s i) v p = unitVal s v p := by
+  intro v
+  rcases propose_cases D s i with h | ⟨a, cur, _, _, h⟩
+  · rw [h]; exact ⟨rfl, fun _ => rfl⟩
+  · rw [h]; exact ⟨observed_total _ _ _ _ _, observed_unitVal _ _ _ _ _⟩
+
+/-- reverting a proposal restores every observable exactly: action flags, totals, per-unit values -/
+theorem revert_exact {D : Data} {s : State} (hI : InitConsistent D) (hc : Canon D s)
+    {i : Nat} (hi : i < D.acts.length) :
+    (revert (propose D s i)).flags = s.flags ∧
+    ∀ v, total (revert (propose D s i)) v = total s v ∧
+         ∀ p, unitVal (revert (propose D s i)) v p = unitVal s v p := by
+  have h := revert_propose_sameVals hI.facts hc hi
+  exact ⟨h.flags, fun v => ⟨h.total_eq v, h.unitVal_eq v⟩⟩
+
+/-- … including the hidden attribute records of the pollutant variables -/
+theorem revert_exact_hidden {D : Data} {s : State} (hI : InitConsistent D) (hc : Canon D s)
+    {i : Nat} (hi : i < D.acts.length) : SameVals s (revert (propose D s i)) :=
+  revert_propose_sameVals hI.facts hc hi
+
+/-- accepting a proposal moves every variable by exactly the change reported for the proposal -/
+theorem accept_is_reported_change {D : Data} {s : State} (hI : InitConsistent D)
+    (hK : KeysDistinct D.acts) (hc : Canon D s) {i : Nat} (hi : i < D.acts.length) :
+    ∀ v, total (accept (propose D s i)) v = total s v + change (propose D s i) v := by
+  obtain ⟨a, cur, _, _, hp, hacc, facts⟩ := propose_stepFacts hI.facts hK hc hi
+  intro v
+  rw [hacc, hp]
+  exact facts.total v
+
+/-- accepting flips exactly the proposed action's flag -/
+theorem accept_flags {D : Data} {s : State} (hc : Canon D s) {i : Nat} (hi : i < D.acts.length) :
+    (accept (propose D s i)).flags = flipFlag s.flags i := by
+  obtain ⟨a, cur, _, hf, hp⟩ := propose_of_canon hc hi
+  rw [hp, accept_observed]
+  unfold flipFlag
+  rw [hf]; rfl
+
+/-- a single action change alters per-planning-unit values only in the action's own unit -/
+theorem local_change {D : Data} {s : State} (hI : InitConsistent D) (hK : KeysDistinct D.acts)
+    (hc : Canon D s) {i : Nat} {a : Action} (ha : D.acts[i]? = some a) {p : PU} (hp : p ≠ a.pu) :
+    ∀ v, unitVal (accept (propose D s i)) v p = unitVal s v p := by
+  have hi : i < D.acts.length := by
+    rcases Nat.lt_or_ge i D.acts.length with h | h
+    · exact h
+    · simp [List.getElem?_eq_none h] at ha
+  obtain ⟨a', cur, ha', _, _, hacc, facts⟩ := propose_stepFacts hI.facts hK hc hi
+  rw [ha] at ha'
+  have e : a = a' := Option.some.inj ha'
+  subst e
+  intro v
+  rw [hacc]
+  exact facts.other v p hp
+
+/-- `AcceptChange` twice is `AcceptChange` once (the status guard) — any state -/
+theorem accept_idem (s : State) : accept (accept s) = accept s := by
+  simp only [accept, acceptAll, doP_idem, doS_idem]
+
+/-- all of the above in every state reachable by a conformant history (C01) -/
+theorem transactional_reachable {D : Data} (hI : InitConsistent D) (hK : KeysDistinct D.acts)
+    (txs : List Tx) {i : Nat} (hi : i < D.acts.length) :
+    (∀ v, total (propose D (run D txs) i) v = total (run D txs) v ∧
+          ∀ p, unitVal (propose D (run D txs) i) v p = unitVal (run D txs) v p) ∧
+    ((revert (propose D (run D txs) i)).flags = (run D txs).flags ∧
+      ∀ v, total (revert (propose D (run D txs) i)) v = total (run D txs) v ∧
+           ∀ p, unitVal (revert (propose D (run D txs) i)) v p = unitVal (run D txs) v p) ∧
+    (∀ v, total (accept (propose D (run D txs) i)) v
+            = total (run D txs) v + change (propose D (run D txs) i) v) ∧
+    (∀ a, D.acts[i]? = some a → ∀ p, p ≠ a.pu →
+       ∀ v, unitVal (accept (propose D (run D txs) i)) v p = unitVal (run D txs) v p) :=
+  have hc := canon_of_history hI hK txs
+  ⟨propose_keeps_values D _ i, revert_exact hI hc hi, accept_is_reported_change hI hK hc hi,
+   fun _ ha _ hp => local_change hI hK hc ha hp⟩
+
+/-! Non-vacuity / sanity (tests, labelled as such) on the concrete dataset of C01:
+a proposal with a non-zero reported change in a non-initial state. -/
+
+example : InitConsistent exData ∧ KeysDistinct exData.acts := by decide +kernel
+
+example : change (propose exData exS 0) .sed ≠ 0 ∧
+    total (propose exData exS 0) .sed = total exS .sed ∧
+    total (accept (propose exData exS 0)) .sed = total exS .sed + change (propose exData exS 0) .sed ∧
+    (revert (propose exData exS 0)).flags = exS.flags ∧
+    unitVal (accept (propose exData exS 0)) .sed 2 = unitVal exS .sed 2 ∧
+    unitVal (accept (propose exData exS 0)) .sed 1 ≠ unitVal exS .sed 1 := by decide +kernel
+
+end Crem.Catchment
